@@ -245,12 +245,18 @@ def sortPerm (d : Disc) (desc : List Val) (order : List Val) : List Nat :=
   | .rebind => order.eraseDups.flatMap (fun x =>
       (List.range desc.length).filter (fun i => desc.getD i "" == x))
 
+/-- number of conditions of an RDM vector of length `k` (`batch_to_matrices` infers it from the
+    vector length; the library-managed `index` descriptor can be absent, e.g. on the RDMs that
+    `calc_rdm(..., descriptor=None)` builds) -/
+def condCount (k : Nat) : Nat :=
+  ((List.range (k + 2)).find? (fun n => Rsa.triLen n == k)).getD 0
+
 def reorderInstrs (d : Disc) (h : Heap) (a : Loc) (perm : List Nat) (reindex : Bool) : List Instr :=
   let (shape, vals) := readArr h a "dissimilarities"
   let nrdm := shape.getD 0 0
   let k := shape.getD 1 0
   let pd := readDict h a DictField.pattern.name
-  let n := (lookupDesc pd "index").length
+  let n := condCount k
   let rows := (rowsOf nrdm k vals).map (reorderVec perm n)
   let pd' : Desc := pd.map (fun p => (p.1, permList perm p.2))
   let pd'' := if reindex then setDesc pd' "index" (indexVals perm.length) else pd'
@@ -348,5 +354,147 @@ def FieldSpec.isFresh : FieldSpec → Bool
 
 /-- the syntactic criterion the property demands of every value-returning operation -/
 def Producer.fresh (p : Producer) : Bool := p.srcWrites.isEmpty && p.fields.all (fun q => q.2.isFresh)
+
+/-! ### derived-object constructors of `RDMs`, as heap programs
+
+`RDMs.__getitem__ / subset / subsample / subset_pattern / subsample_pattern / copy` and `concat`
+are *compiled* to producers: for the source object found in the heap, which attributes the new
+object gets and how each is obtained.  On the current tree every attribute is a new array (fancy
+indexing, `np.concatenate`, a new matrix stack) or a new dictionary (`deepcopy`, `extract_dict`,
+`subset_descriptor`), so the sharing graph between the new object and its sources is *derived*
+here (empty), not merely observed; the content is computed as the code computes it, so the driver
+can predict the real result. -/
+
+/-- `num_index(desc, values)`: ascending positions whose value is one of `values` -/
+def numIndex (desc values : List Val) : List Nat :=
+  (List.range desc.length).filter (fun i => values.contains (desc.getD i ""))
+
+/-- `subsample`: for every requested value, in request order, every position holding it -/
+def sampleIndex (desc values : List Val) : List Nat :=
+  values.flatMap (fun v => (List.range desc.length).filter (fun i => desc.getD i "" == v))
+
+def insertNat (x : Nat) : List Nat → List Nat
+  | [] => [x]
+  | y :: ys => if x ≤ y then x :: y :: ys else y :: insertNat x ys
+
+/-- `subsample_pattern` sorts the positions (`np.sort`); insertion sort, structural -/
+def sampleIndexSorted (desc values : List Val) : List Nat :=
+  (sampleIndex desc values).foldr insertNat []
+
+/-- condensed vector of `matrix[sel][:, sel]`, the matrix having `diag` on its diagonal -/
+def reorderVecD (diag : Val) (sel : List Nat) (n : Nat) (v : List Val) : List Val :=
+  Rsa.matToVec sel.length
+    (fun i j => Rsa.vecToMat n diag "?" v (sel.getD i 0) (sel.getD j 0))
+
+inductive Ctor where
+  /-- `rdms[idx]` (`idx` already through `np.atleast_1d`) -/
+  | getitem (idx : List Nat)
+  /-- `rdms.subset(by, values)` -/
+  | subset (by_ : String) (values : List Val)
+  /-- `rdms.subsample(by, values)` -/
+  | subsample (by_ : String) (values : List Val)
+  /-- `rdms.subset_pattern(by, values)` -/
+  | subsetPattern (by_ : String) (values : List Val)
+  /-- `rdms.subsample_pattern(by, values)` -/
+  | subsamplePattern (by_ : String) (values : List Val)
+  /-- `rdms.copy()` -/
+  | copy
+  /-- `concat(self, *others, target_pdesc)`; the merged `descriptors` / `rdm_descriptors`
+      (`_merged_rdm_descriptors`) are parameters: only their freshness is modelled -/
+  | concat (others : List Loc) (target : Option String) (descriptors rdmDescriptors : Desc)
+  deriving Repr, Inhabited
+
+/-- copies of the float arrays held in the `descriptors` dictionary (`deepcopy(self.descriptors)`) -/
+def heldCopies (h : Heap) (a : Loc) : List (String × FieldSpec) :=
+  (fieldsOf (h.cells a)).filterMap (fun p =>
+    match p.2 with
+    | .arr shape els => if heldInDict p.1 then
+        some (p.1, FieldSpec.freshArr shape (els.map (fun l => valOf (h.cells l)))) else none
+    | .dict _ => none)
+
+/-- rows of RDM vectors selected by position (a fancy index: always a new array) -/
+def rowSelect (h : Heap) (a : Loc) (sel : List Nat) : List (String × FieldSpec) :=
+  let shape := (readArr h a "dissimilarities").1
+  let vals := (readArr h a "dissimilarities").2
+  let k := shape.getD 1 0
+  let rows := rowsOf (shape.getD 0 0) k vals
+  let rd := readDict h a DictField.rdm.name
+  [ ("dissimilarities", .freshArr [sel.length, k] (permList sel rows).flatten),
+    ("descriptors", .freshDict (readDict h a "descriptors")),
+    (DictField.rdm.name, .freshDict (rd.map (fun p => (p.1, permList sel p.2)))),
+    (DictField.pattern.name, .freshDict (readDict h a DictField.pattern.name)) ]
+
+/-- patterns selected by position, diagonal value `diag` (`subset_pattern`: never read) -/
+def patSelect (h : Heap) (a : Loc) (diag : Val) (sel : List Nat) : List (String × FieldSpec) :=
+  let shape := (readArr h a "dissimilarities").1
+  let vals := (readArr h a "dissimilarities").2
+  let nrdm := shape.getD 0 0
+  let rows := rowsOf nrdm (shape.getD 1 0) vals
+  let pd := readDict h a DictField.pattern.name
+  let n := condCount (shape.getD 1 0)
+  [ ("dissimilarities", .freshArr [nrdm, Rsa.triLen sel.length] (rows.map (reorderVecD diag sel n)).flatten),
+    ("descriptors", .freshDict (readDict h a "descriptors")),
+    (DictField.rdm.name, .freshDict (readDict h a DictField.rdm.name)),
+    (DictField.pattern.name, .freshDict (pd.map (fun p => (p.1, permList sel p.2)))) ]
+
+/-- the pattern descriptor `concat` aligns by: the first one other than `index` without repeats -/
+def authDesc (pd : Desc) (target : Option String) : Option String :=
+  match target with
+  | some t => some t
+  | none => (pd.find? (fun p => p.1 != "index" && p.2.eraseDups.length == p.2.length)).map (·.1)
+
+/-- the vectors of one further argument of `concat`, brought into the first argument's order -/
+def alignedRows (h : Heap) (auth : Option (String × List Val)) (b : Loc) : List Val :=
+  let shape := (readArr h b "dissimilarities").1
+  let vals := (readArr h b "dissimilarities").2
+  let rows := rowsOf (shape.getD 0 0) (shape.getD 1 0) vals
+  match auth with
+  | none => vals
+  | some (key, order) =>
+      let pdb := readDict h b DictField.pattern.name
+      let other := lookupDesc pdb key
+      let perm := order.map (findIdx other)
+      (rows.map (reorderVec perm (condCount (shape.getD 1 0)))).flatten
+
+def ctorFields (h : Heap) (a : Loc) : Ctor → List (String × FieldSpec)
+  | .getitem idx => rowSelect h a idx ++ heldCopies h a
+  | .subset by_ values =>
+      rowSelect h a (numIndex (lookupDesc (readDict h a DictField.rdm.name) by_) values) ++ heldCopies h a
+  | .subsample by_ values =>
+      rowSelect h a (sampleIndex (lookupDesc (readDict h a DictField.rdm.name) by_) values) ++ heldCopies h a
+  | .subsetPattern by_ values =>
+      patSelect h a "0.0" (numIndex (lookupDesc (readDict h a DictField.pattern.name) by_) values)
+        ++ heldCopies h a
+  | .subsamplePattern by_ values =>
+      patSelect h a "nan" (sampleIndexSorted (lookupDesc (readDict h a DictField.pattern.name) by_) values)
+        ++ heldCopies h a
+  | .copy =>
+      let shape := (readArr h a "dissimilarities").1
+      let vals := (readArr h a "dissimilarities").2
+      [ ("dissimilarities", .freshArr shape vals),
+        ("descriptors", .freshDict (readDict h a "descriptors")),
+        (DictField.rdm.name, .freshDict (readDict h a DictField.rdm.name)),
+        (DictField.pattern.name, .freshDict (readDict h a DictField.pattern.name)) ] ++ heldCopies h a
+  | .concat others target dd rd =>
+      let shape := (readArr h a "dissimilarities").1
+      let vals := (readArr h a "dissimilarities").2
+      let pd := readDict h a DictField.pattern.name
+      let auth := (authDesc pd target).map (fun k => (k, lookupDesc pd k))
+      let nOther := (others.map (fun b => (readArr h b "dissimilarities").1.getD 0 0)).foldl (· + ·) 0
+      [ ("dissimilarities", .freshArr [shape.getD 0 0 + nOther, shape.getD 1 0]
+            (vals ++ (others.map (alignedRows h auth)).flatten)),
+        ("descriptors", .freshDict dd),
+        (DictField.rdm.name, .freshDict rd),
+        (DictField.pattern.name, .freshDict pd) ]
+
+/-- the producer a constructor call compiles to: no write to any source, then the new object -/
+def ctorProducer (h : Heap) (a : Loc) (c : Ctor) : Producer :=
+  { srcWrites := [], fields := ctorFields h a c }
+
+/-- what a spec says about where an attribute's storage comes from (for the source-text tie) -/
+def FieldSpec.kindName : FieldSpec → String
+  | .freshArr _ _ => "fresh"
+  | .freshDict _ => "fresh"
+  | .share f => "share:" ++ f
 
 end Rsa.Heap
